@@ -31,7 +31,14 @@ for d in sorted(glob.glob(os.path.join(V, "seeded", "C*-*"))):
     if r:
         q, th, sig = r[3], r[4], r[5]
         if r[2] != "yes":
-            q = th = "n/a"; sig = r[2]
+            q = th = "n/a"
+            sig = "does not apply to the current tree (the code it changes was repaired since)"
+            mp = os.path.join(d, "meta.json")
+            if os.path.exists(mp):
+                runs = json.load(open(mp)).get("runs", [])
+                hit = [x for x in runs if "violations=0" not in x]
+                if hit:
+                    sig += "; when it was written: " + hit[-1][:200]
     else:
         q = th = sig = "not run yet"
     sig = "; ".join([x for x in sig.split(";") if x][:3])
